@@ -414,16 +414,20 @@ def scenarios(tier):
         {"name": "w1_r2_r1", "init": [1], "handles": 1,
          "threads": [{"h": 0, "ops": [A(2)]}, {"h": 0, "ops": [L(), L()]}, {"h": 0, "ops": [L()]}]},
         {"name": "rm_exist", "init": [1, 2], "handles": 1,
-         "threads": [{"h": 0, "ops": [R(1)]}, {"h": 0, "ops": [E(1), E(1)]}, {"h": 0, "ops": [E(1)]}]},
+         "threads": [{"h": 0, "ops": [R(1)]}, {"h": 0, "ops": [E(1), E(1), E(2)]}]},
         {"name": "two_handles", "init": [1], "handles": 2,
          "threads": [{"h": 0, "ops": [A(2)]}, {"h": 1, "ops": [L(), L()]}, {"h": 0, "ops": [L()]}]},
         {"name": "w2_r2", "init": [], "handles": 1,
          "threads": [{"h": 0, "ops": [A(1), A(2)]}, {"h": 0, "ops": [L(), E(2), L()]}]},
         {"name": "pages", "init": [1, 2, 3], "handles": 1,
-         "threads": [{"h": 0, "ops": [R(1)]}, {"h": 0, "ops": [L(1, 0), L(1, 1)]}, {"h": 0, "ops": [L(1, 1)]}]},
+         "threads": [{"h": 0, "ops": [R(1)]}, {"h": 0, "ops": [L(1, 0), L(1, 1), L(1, 0), L(1, 1)]}]},
     ]
     if tier == "thorough":
         s += [
+            {"name": "rm_exist3", "init": [1, 2], "handles": 1,
+             "threads": [{"h": 0, "ops": [R(1)]}, {"h": 0, "ops": [E(1), E(1)]}, {"h": 0, "ops": [E(1)]}]},
+            {"name": "pages3", "init": [1, 2, 3], "handles": 1,
+             "threads": [{"h": 0, "ops": [R(1)]}, {"h": 0, "ops": [L(1, 0), L(1, 1)]}, {"h": 0, "ops": [L(1, 1)]}]},
             {"name": "w2_r2_r2", "init": [1], "handles": 1,
              "threads": [{"h": 0, "ops": [A(2), R(1)]}, {"h": 0, "ops": [L(), L()]}, {"h": 0, "ops": [E(1), L()]}]},
             {"name": "three_handles", "init": [1], "handles": 3,
